@@ -30,7 +30,7 @@ def jobs_for(tier):
         seen.add(t['id'])
         for codec in C.BINARY_CODECS:
             jobs.append(dict(id='%s/%s' % (t['id'], codec), template=t['id'], codec=codec,
-                             numeric_enums=False, tier=tier))
+                             numeric_enums=False, tier=corpus.job_tier(t, tier)))
     # BER: strict prefixes of OTHER valid serialisations (long-form / padded / indefinite lengths,
     # constructed strings) built by the independent X.690 model
     for i in ['octets', 'seq-basic', 'seq-opt', 'ia5', 'choice-ext', 'seqof', 'bits', 'tag-explicit'] + \
